@@ -17,6 +17,7 @@ import (
 	"os"
 	"path/filepath"
 	"strconv"
+	"strings"
 )
 
 type fileSpec struct {
@@ -102,6 +103,24 @@ func (in *inst) collect(e ast.Node, write bool, out *[]hook) {
 				in.collect(x.X, true, out)
 				return false
 			}
+		case *ast.CallExpr:
+			// arguments of in-place mutators are written: slices.Sort*, sort.*, copy(dst,..)
+			name := ""
+			switch f := x.Fun.(type) {
+			case *ast.SelectorExpr:
+				name = f.Sel.Name
+				in.collect(f.X, false, out)
+			case *ast.Ident:
+				name = f.Name
+			}
+			mut := strings.HasPrefix(name, "Sort") || strings.HasPrefix(name, "Stable") || name == "Reverse" || name == "Slice" || name == "SliceStable"
+			for i, a := range x.Args {
+				in.collect(a, write || mut || (name == "copy" && i == 0), out)
+			}
+			if _, ok := x.Fun.(*ast.FuncLit); ok {
+				return false
+			}
+			return false
 		}
 		return true
 	})
